@@ -25,6 +25,7 @@ import (
 	"sort"
 	"strings"
 	"sync"
+	"sync/atomic"
 	"time"
 
 	"github.com/olareg/olareg"
@@ -291,6 +292,22 @@ func (e *env) fuzz(rng *rand.Rand, n int) {
 }
 
 // directed: conditions created on purpose, with the codes allowed for each.
+// startedReader tells when the first Read of a request body begins.
+type startedReader struct {
+	r       io.Reader
+	started chan struct{}
+	once    sync.Once
+	need    int32 // the Read call whose beginning is reported (1 = the first)
+	n       atomic.Int32
+}
+
+func (s *startedReader) Read(b []byte) (int, error) {
+	if s.n.Add(1) >= s.need {
+		s.once.Do(func() { close(s.started) })
+	}
+	return s.r.Read(b)
+}
+
 func (e *env) directed(rng *rand.Rand) {
 	u := e.w.U
 	m := e.w.Repos["r"]
@@ -589,16 +606,26 @@ func (e *env) directed(rng *rand.Rand) {
 			meth, u = "POST", "/v2/r/blobs/uploads/?digest="+cd
 		}
 		pr, pw := io.Pipe()
+		// (put: the handler's first read of the body; monolithic POST: its second - the first one takes the content, which
+		// it writes to the store before it comes back for more)
+		sr := &startedReader{r: pr, started: make(chan struct{}), need: map[string]int32{"put": 1, "monolithic-post": 2}[form]}
 		done := make(chan vh.Resp, 1)
-		go func() { done <- vh.DoStream(cs, meth, u, nil, pr) }()
+		go func() { done <- vh.DoStream(cs, meth, u, nil, sr) }()
 		if form != "put" {
-			_, _ = pw.Write(content)
+			_, _ = pw.Write(content) // returns when the handler has taken the content: it now waits for the end of the body
 		}
-		time.Sleep(3 * time.Millisecond)
+		established := true
+		select {
+		case <-sr.started: // the handler is inside its read of the body: it entered the server before Close
+		case <-time.After(5 * time.Second):
+			established = false
+		}
 		_ = cs.Close()
 		_ = pw.Close()
 		rs := <-done
-		if rs.Panic != "" {
+		if !established {
+			e.r.Count("directed_server_closed_not_established", 1)
+		} else if rs.Panic != "" {
 			e.observe(vh.Req{Method: meth, URL: u, UnknownLen: true}, rs, "", "directed:server-closed-under-completion")
 		}
 		e.r.Count("directed_conditions", 1)
